@@ -80,8 +80,10 @@ def gen_program(rng, ndex=None, shared_strings=True):
                     else:
                         cl, fn, ft = rng.choice(names), "nofield", "I"
                     code.append(("field", rng.choice(IGETS + SGETS), cl, fn, ft))
-                else:
+                elif r < 0.95:
                     code.append(("pad", rng.choice((1, 1, 2, 3))))
+                else:
+                    code.append(("table", rng.choice((0, 1, 4, 7))))       # array data in the middle of the code, jumped over
             if code and rng.random() < 0.3:
                 code.append(code[rng.randrange(len(code))])      # the same reference again at another offset
             m["code"] = code
@@ -117,10 +119,15 @@ def ins_units(i):
         return [i[1], Field(i[2], i[3], i[4])]
     if k == "pad":
         return {1: [0x0012], 2: [0x0013, 1], 3: [0x0014, 2, 0]}[i[1]]
+    if k == "table":                       # goto over a fill-array-data payload of i[1] bytes
+        plen = 4 + (i[1] + 1) // 2
+        return [0x0028 | ((1 + plen) << 8), 0x0300, 1, i[1] & 0xFFFF, i[1] >> 16] + [0] * ((i[1] + 1) // 2)
     raise ValueError(k)
 
 
 def ins_size(i):
+    if i[0] == "table":
+        return 1 + 4 + (i[1] + 1) // 2
     return {"invoke": 3, "new": 2, "cclass": 2, "field": 2}.get(i[0], None) or (3 if i[0] == "str" and i[2] else 2 if i[0] == "str" else i[1])
 
 
